@@ -239,4 +239,145 @@ theorem rekey_spec {β ν : Type} [DecidableEq β] [BEq ν] [LawfulBEq ν] (m : 
     · simp only [h1, ↓reduceIte]
       exact rekey_other frm to _ _ d x h1 h2
 
+
+/-! ### migration records are written by `setRecord` only -/
+
+theorem touchPre_recs {s s' : State} {d v rw} (h : touchPre s d v rw = some s') : s'.recs = s.recs := by
+  unfold touchPre at h
+  split at h
+  · cases h; rfl
+  · split at h
+    · cases h
+    · cases h; rfl
+
+theorem unbond_recs {s s' : State} {d v amt rw} (h : unbond s d v amt rw = some s') : s'.recs = s.recs := by
+  unfold unbond at h
+  split at h
+  · cases h
+  · split at h
+    · cases h
+    · split at h
+      · cases h
+      · rename_i s1 h1
+        cases h
+        have := touchPre_recs h1
+        split <;> simpa [touchPost] using this
+
+theorem addShares_recs {s s' : State} {d v amt rw} (h : addShares s d v amt rw = some s') : s'.recs = s.recs := by
+  unfold addShares at h
+  split at h
+  · cases h
+  · rename_i s1 h1
+    cases h
+    simpa [touchPost] using touchPre_recs h1
+
+theorem delegate_recs {s s' : State} {d v amt rw} (h : delegate s d v amt rw = some s') : s'.recs = s.recs := by
+  unfold delegate at h
+  split at h
+  · cases h
+  · split at h
+    · cases h
+    · rename_i s1 h1
+      split at h
+      · cases h
+      · cases h
+        simpa [touchPost] using touchPre_recs h1
+
+theorem undelegate_recs {s s' : State} {d v amt rw} (h : undelegate s d v amt rw = some s') : s'.recs = s.recs := by
+  unfold undelegate at h
+  split at h
+  · cases h
+  · simp only [] at h
+    split at h
+    · cases h
+    · split at h
+      · cases h
+      · rename_i s1 h1
+        split at h
+        · cases h
+        · cases h
+          exact (unbond_recs h1 : s1.recs = s.recs)
+
+theorem redelegate_recs {s s' : State} {d a b amt r1 r2} (h : redelegate s d a b amt r1 r2 = some s') : s'.recs = s.recs := by
+  unfold redelegate at h
+  split at h
+  · cases h
+  · split at h
+    · cases h
+    · simp only [] at h
+      split at h
+      · cases h
+      · split at h
+        · cases h
+        · rename_i s1 h1
+          split at h
+          · cases h
+          · rename_i s2 h2
+            cases h
+            exact ((addShares_recs h2 : s2.recs = s1.recs).trans (unbond_recs h1))
+
+theorem withdraw_recs {s s' : State} {d v rw} (h : withdraw s d v rw = some s') : s'.recs = s.recs := by
+  unfold withdraw at h
+  split at h
+  · cases h
+  · split at h
+    · cases h
+    · rename_i s1 h1
+      cases h
+      simpa [touchPost] using touchPre_recs h1
+
+theorem submit_recs {s s' : State} {a dep} (h : submit s a dep = some s') : s'.recs = s.recs := by
+  unfold submit at h
+  split at h
+  · cases h
+  · cases h; rfl
+
+theorem deposit_recs {s s' : State} {a id amt} (h : deposit s a id amt = some s') : s'.recs = s.recs := by
+  unfold deposit at h
+  split at h
+  · cases h
+  · split at h
+    · cases h
+    · split at h
+      · cases h
+      · cases h; rfl
+
+theorem vote_recs {s s' : State} {a id} (h : vote s a id = some s') : s'.recs = s.recs := by
+  unfold vote at h
+  split at h
+  · cases h
+  · split at h
+    · cases h
+    · cases h; rfl
+
+theorem completeUnbonding_recs (s : State) (d v) : (completeUnbonding s d v).recs = s.recs := by
+  unfold completeUnbonding
+  split
+  · rfl
+  · simp only []
+    split <;> rfl
+
+theorem completeRedelegation_recs (s : State) (d a b) : (completeRedelegation s d a b).recs = s.recs := by
+  unfold completeRedelegation
+  split
+  · rfl
+  · simp only []
+    split <;> rfl
+
+theorem stakingEnd_recs (s : State) : (stakingEnd s).recs = s.recs := by
+  unfold stakingEnd
+  refine (foldl_keep (fun s : State => s.recs) _ (by intros; exact completeRedelegation_recs _ _ _ _) _ _).trans ?_
+  exact foldl_keep (fun s : State => s.recs) _ (by intros; exact completeUnbonding_recs _ _ _) _ _
+
+theorem refundDeposits_recs (s : State) (id) : (refundDeposits s id).recs = s.recs := rfl
+
+theorem govEnd_recs (s : State) : (govEnd s).recs = s.recs := by
+  unfold govEnd
+  refine (foldl_keep (fun s : State => s.recs) _ (by intros; rfl) _ _).trans ?_
+  exact foldl_keep (fun s : State => s.recs) _ (by intros; rfl) _ _
+
+theorem endBlock_recs (s : State) (dt) : (endBlock s dt).recs = s.recs := by
+  unfold endBlock
+  exact (govEnd_recs _).trans (stakingEnd_recs _)
+
 end FxVerif.Proofs.C14
